@@ -89,6 +89,31 @@ CLAIMS = {
   "change / insertion / deletion / transposition, both Stone builds, with a relational oracle.",
   "Dynamic-parameter field ORDER is the translator's (Generated/DynamicParams) and is exercised under C16/C19.",
   "Lean 4 machine-checked proof (collision-extraction) over a hand model + correspondence check", "7/C13"),
+
+ 'C06': ("proof",
+  "Lean theorems (Props/C06.lean): P(x) = sum_j x^j P_j(x^(2^k)) for the coefficient-list split; for k = 1..4, every polynomial, challenge b "
+  "and point x != 0, fri_formula on the coset values (in the verifier's order P(x*group[j])) equals 2^k * sum_j b^j * P_j(x^(2^k)) — the "
+  "property's sentence verbatim; facts about the group/omega constants TRANSLATED from the Rust (orders, bit-reversed layout) by kernel "
+  "computation; the per-layer step: on correct (index, P(pt), 1/pt) queries with the expected sibling leaves compute_next_layer returns "
+  "the correct next-layer queries for the folded polynomial, the coset indices and full coset rows, consumes exactly the expected "
+  "siblings, never exhausts its fuel; Horner = evaluation and the last-layer iff. Props/C06b.lean holds the assembled completeness of the "
+  "honest prover as far as proved (see file header). Tied to the code by whole FRI instances from the executable Lean honest prover "
+  "that the REAL fri_commit+fri_verify must accept (random step lists, bounds, blow-ups, friendly counts, polynomials up to the bound, "
+  "query shapes, 2/4 hash builds) and a pointwise Python oracle for the fold identity.",
+  "Generated test domains are <= 2^12; the theorems cover all sizes.",
+  "Lean 4 machine-checked proof over a hand model + executable Lean honest prover accepted by the real code", "7/C06"),
+ 'C16': ("proof",
+  "The composition and DEEP evaluators of all 7 layouts are TRANSLATED from the Rust on every run (tools/gen_ast.py) into deep-embedded "
+  "programs; Lean proves once that a program accepted by the syntactic checker is linear in its coefficient vector (additive, homogeneous, "
+  "outcome class independent of the coefficients, decomposes over unit vectors), and for each of the 14 programs, by kernel evaluation on "
+  "what the code says now: the checker accepts, every coefficient position 0..N-1 is consumed by exactly one accumulate statement "
+  "(N from the translated layout constants), static layouts have no conditional statement, the dynamic layout's conditions are exactly its "
+  "ten uses_*_builtin switches. The translator is validated, not assumed: its Lean printer is checked by printing the elaborated terms "
+  "back (DumpAst), and the driver's evaluation of the translated programs must equal the real eval_*_polynomial_inner on random inputs for "
+  "all layouts. 'Not identically zero' is established with unit coefficient vectors at random points on the real code (a polynomial "
+  "identity test, as the property's quantifier says), not by a theorem.",
+  "Trusted additionally: tools/rustexpr.py parser of the Rust subset. Non-vanishing is a randomised test. Dynamic layout: shipped instance only.",
+  "Lean 4 reflective proof over programs regenerated from source by a translator + evaluation agreement", "7/C16"),
 }
 
 ORDER = [f'C{i:02d}' for i in range(1, 20)]
